@@ -14,6 +14,7 @@ import time as _time_mod
 import multiprocessing as _mp
 import multiprocessing.process as _mp_process
 import signal as _signal
+import atexit as _atexit
 
 from . import core
 from .core import current_task, HarnessError, UnsupportedSeam, SimKilled
@@ -30,6 +31,8 @@ _real = {
     "kill": os.kill,
     "getpid": os.getpid,
     "bp_start": _mp_process.BaseProcess.start,
+    "atexit_register": _atexit.register,
+    "atexit_unregister": _atexit.unregister,
     "fork": os.fork,
 }
 
@@ -38,19 +41,21 @@ EPOCH = 1.7e9
 _SHARE_BY_CLASS = ("MachineModel", "ArchSemantics", "ISASemantics", "ParserX86ATT", "ParserAArch64")
 SPEEDS = (1e-5, 3e-5, 1e-4, 3e-4, 1e-3)  # simulated seconds per traced line
 START_DELAYS = (0.0, 0.0, 0.003, 0.05, 0.19, 0.35)
-RTTS = (0.0, 0.0, 1e-4, 1e-3, 1e-2)  # simulated seconds per manager round trip
+RTTS = (0.0, 0.0, 1e-4, 1e-3, 1e-2, 1e-1)
+ITEM_COSTS = (0.0, 0.0, 1e-6, 1e-5)  # simulated seconds per element of a delivered list (pickling, transfer)  # simulated seconds per manager round trip
 
 
 class World:
     """Per-run process table and configuration shared by the stand-ins."""
 
-    def __init__(self, sim, ncpu=4, shared=(), speeds=SPEEDS, start_delays=START_DELAYS, rtt=0.0):
+    def __init__(self, sim, ncpu=4, shared=(), speeds=SPEEDS, start_delays=START_DELAYS, rtt=0.0, item_cost=0.0):
         self.sim = sim
         self.ncpu = ncpu
         self.shared = list(shared)  # objects memo-shared (read-only) with workers
         self.speeds = speeds
         self.start_delays = start_delays
         self.rtt = rtt
+        self.item_cost = item_cost
         self.procs = []
         self.managers = []
         self.next_pid = 1001
@@ -116,6 +121,7 @@ class SimProcess:
         def fn():
             if target is not None:
                 target(*args, **kwargs)
+            run_exit_handlers()
 
         self.task = sim.spawn("w%d" % self.pid, fn, trace=True, line_cost=speed, kind="proc",
                               delay=delay)
@@ -245,7 +251,8 @@ class SimListProxy:
         sim.wait_until(lambda: req.applied or req.dropped, "mgr-wait:%s" % op)
         if req.dropped:
             raise EOFError("manager connection closed")
-        sim.yield_(mgr._w.rtt, "mgr-ack:%s" % op)
+        xfer = mgr._w.rtt + (len(payload) * mgr._w.item_cost if isinstance(payload, list) else 0.0)
+        sim.yield_(xfer, "mgr-ack:%s" % op)
         if me is getattr(sim, "main_task", None) and mgr._w.rtt:
             cap = getattr(sim, "captured", None)
             if cap is not None:
@@ -520,6 +527,40 @@ def sim_getpid():
     return _real["getpid"]()
 
 
+def sim_atexit_register(func, *args, **kwargs):
+    """atexit handlers registered by a simulated process belong to that process: they run when the
+    simulated process exits normally (run_exit_handlers) and never after a SIGKILL."""
+    t = current_task()
+    if t is not None:
+        t.attrs.setdefault("atexit", []).append((func, args, kwargs))
+        return func
+    return _real["atexit_register"](func, *args, **kwargs)
+
+
+def sim_atexit_unregister(func):
+    t = current_task()
+    if t is not None:
+        t.attrs["atexit"] = [h for h in t.attrs.get("atexit", []) if h[0] is not func]
+        return None
+    return _real["atexit_unregister"](func)
+
+
+def run_exit_handlers():
+    """Called by the body of a simulated process right before it returns (normal interpreter exit)."""
+    t = current_task()
+    if t is None:
+        return
+    handlers = t.attrs.get("atexit", [])
+    while handlers:
+        func, args, kwargs = handlers.pop()
+        try:
+            func(*args, **kwargs)
+        except (SimKilled, core.SimAbort, HarnessError):
+            raise
+        except Exception:
+            pass  # the interpreter prints the traceback and carries on
+
+
 def _guard_real_start(self):
     if current_task() is not None:
         raise UnsupportedSeam("a real multiprocessing process was started inside the simulation "
@@ -553,6 +594,8 @@ def install():
     os.getpid = sim_getpid
     os.fork = _guard_fork
     _mp_process.BaseProcess.start = _guard_real_start
+    _atexit.register = sim_atexit_register
+    _atexit.unregister = sim_atexit_unregister
 
 
 def rebind_module(mod):
